@@ -257,6 +257,10 @@ V("v_tile_new", "dec_small", "Tile::new / Tile::parse / as_bool: Ok iff 4 bytes;
   ["tile::Tile::new", "tile::Tile::parse", "tile::as_bool"], fn="Tile::new", witness="x_tilemap_views")
 V("v_gray_new", "dec_small", "Grayscale::new: Ok iff 2 bytes; (value, alpha) = (byte 0, byte 1) (the function the grayscale chain of from_bytes maps over)", ["pixel::Grayscale::new"], fn="Grayscale::new", witness="x_frames_vs_spec")
 V("v_read_rgba", "dec_small", "pixel::read_rgba: Ok iff 4 bytes; the pixel is those 4 bytes in order (the function the RGBA chain of from_bytes maps over)", ["pixel::read_rgba"], fn="read_rgba", witness="x_frames_vs_spec")
+V("v_reader_string", "pixel_readers", "AseReader::string on the real text over the trusted model of a byte source (read_u16 little-endian, read_exact, String::from_utf8): Ok = a u16 length n, then EXACTLY the next n bytes, which are UTF-8, and the source advanced by 2 + n; fewer bytes than declared => Err; enough bytes, UTF-8, no I/O error => Ok. This is the STRING clause of the reader contract that the decoder units assume",
+  ["reader::AseReader::string"], fn="AseReader::string", witness=["x_roundtrip_structure", "x_truncation"])
+V("v_skip_reserved", "pixel_readers", "AseReader::skip_reserved(count): Ok = exactly `count` bytes consumed; fewer => Err; enough bytes and no I/O error => Ok",
+  ["reader::AseReader::skip_reserved"], fn="AseReader::skip_reserved", witness=["x_truncation"])
 V("v_take_bytes", "pixel_readers", "AseReader::take_bytes(limit) over ANY byte source (trusted model of Read: remaining bytes + may fail): Ok => exactly `limit` bytes, the next ones, never fewer; enough bytes and no I/O error => Ok whatever follows (C07: trailing bytes do not matter); the buffer grows with the bytes that arrive",
   ["reader::AseReader::take_bytes"], fn="AseReader::take_bytes", witness=["x_neutral_encodings", "x_truncation"])
 V("v_unzip", "pixel_readers", "AseReader::unzip(n) (trusted model of flate2's decoder: a byte source delivering the inflated stream): Ok => the inflated stream is exactly n bytes long (one more byte is requested to see that nothing follows) and those bytes are returned; n inflated bytes, no corruption => Ok",
@@ -426,7 +430,7 @@ def prop(id, level, obls, explanation, **kw):
     d.update(kw)
     PROPS[id] = d
 
-prop("C01", "proof", ACC_V + ["v_layer_by_name", "v_layers_iter", "v_get_tag", "v_layer_name", "v_tag_name", "v_tileset_name", "v_palette_entry_id", "v_add_external_files", "v_extfile_name", "v_tsref_getters", "v_tileset_getters", "v_extfiles_add", "v_extfiles_get", "v_tilesets_add", "v_tilesets_get", "v_compute_parents", "v_from_vec", "x_forest_exhaustive", "v_chunk_read", "v_chunk_read_all", "v_dec_layer", "v_dec_layer_type", "v_dec_blend_mode", "v_dec_tags", "v_dec_anim_dir", "v_dec_ext", "v_dec_slice_key", "v_dec_slice9", "v_dec_palette", "v_palette_color", "v_dec_tileset", "v_dec_tileset_ref", "v_check_chunk_bytes"]
+prop("C01", "proof", ACC_V + ["v_layer_by_name", "v_layers_iter", "v_get_tag", "v_layer_name", "v_tag_name", "v_tileset_name", "v_palette_entry_id", "v_add_external_files", "v_extfile_name", "v_tsref_getters", "v_reader_string", "v_tileset_getters", "v_extfiles_add", "v_extfiles_get", "v_tilesets_add", "v_tilesets_get", "v_compute_parents", "v_from_vec", "x_forest_exhaustive", "v_chunk_read", "v_chunk_read_all", "v_dec_layer", "v_dec_layer_type", "v_dec_blend_mode", "v_dec_tags", "v_dec_anim_dir", "v_dec_ext", "v_dec_slice_key", "v_dec_slice9", "v_dec_palette", "v_palette_color", "v_dec_tileset", "v_dec_tileset_ref", "v_check_chunk_bytes"]
      + ["k_parse_chunk_type", "k_parse_pixel_format", "k_check_chunk_bytes", "k_pixel_format_accessors"] + READER + LAYER_DEC + TAGS_DEC + SLICE_DEC
      + ["k_palette_chunk_20", "k_palette_chunk_26", "k_palette_chunk_35"] + EXT_DEC + TS_DEC + ["v_read_aseprite", "v_parse_pixel_format", "v_parse_frame", "v_num_frames", "v_num_layers", "v_file_layer", "v_file_frame", "x_decoder_contracts", "x_roundtrip_structure", "x_header_extremes"],
      "Every chunk decoder (layer, tags, external files, new and legacy palettes, tileset, cel, tilemap, user data, colour profile, slice keys), the chunk framing (Chunk::read / read_all), the file header and the frame dispatch are Verus contracts on the real text for EVERY payload length and entity count, field by field against the file-format layout, modulo the reader-primitive contract; 28 public accessors, the tileset / external-file tables and the parent computation are Verus contracts too. The reader primitives and the enum decoders are Kani contracts (enums over their whole domain, primitives and a few decoder shapes on fixed payload sizes with symbolic contents). layer_by_name (lowest-numbered match for every layer list; `==` on &str is a trusted shim), the layer iterator (every layer once, in index order), get_tag (None out of range) and the name getters are Verus contracts as well. slice::parse_chunk (iterator collect), tag_by_name (iterator find) and whole files through zlib are bounded stand-ins (x_*).")
@@ -434,7 +438,7 @@ prop("C02", "proof", ["v_frame_image_api", "v_single_visible_frame", "v_frame_im
      "frame_image is proved by Verus on the real text, for every validated sprite, to be the fold of the frame's cels in increasing layer order over transparent black with hidden layers skipped; write_cel picks the layer's mode / opacity / tileset and resolves links; both rasterisers are proved FUNCTIONALLY correct for unbounded sizes (placement, clipping, row-major index, tile grid, opacity product, blend call); CelsData::add_cel touches exactly one slot (storage order cannot matter). mul_un8 == round8 is a Kani contract. The Box<dyn Fn> dispatch table (Kani ICE, no dyn in Verus), clone_as_image_rgba and the frame_cels iterator are trusted shims exercised by bounded stand-ins.")
 prop("C03", "proof", BLEND_LEAVES + BLEND_WRAPPERS + ["k_parse_blend_mode", "x_mode_table", "x_soft_light", "x_hsl_kernels", "x_blend_public_api"],
      "14 integer modes: leaves == Aseprite macros over their full domains, normal/merge == reference over all 2^72 inputs, every mode function == RGBA_BLENDER_N structure modulo callees (uninterpreted-function abstraction). soft light and the four HSL modes: integer skeleton proved, f64 kernels bounded-exec (soft light exhaustive over 65536 pairs).")
-prop("C04", "proof", ["x_cel_table_memory"] + VDEC_IDS + ["v_read_bytes", "v_parse_raw_cel", "v_parse_compressed_cel", "v_take_bytes", "v_unzip", "v_output_size", "v_from_bytes", "v_from_raw", "v_from_compressed", "v_chunk_read", "v_chunk_read_all", "v_parse_chunk_type", "v_celsdata_new", "v_parseinfo_new", "v_parseinfo_validate", "v_celsdata_validate", "v_rawcel_validate", "v_layersdata_validate", "v_tilesets_validate", "v_compute_parents", "v_from_vec", "k_check_chunk_bytes", "k_scale_6bit", "k_parse_chunk_type", "k_parse_pixel_format"] + LAYER_DEC + TAGS_DEC + SLICE_DEC + PAL_DEC + EXT_DEC
+prop("C04", "proof", ["x_cel_table_memory"] + VDEC_IDS + ["v_read_bytes", "v_parse_raw_cel", "v_parse_compressed_cel", "v_take_bytes", "v_unzip", "v_output_size", "v_from_bytes", "v_from_raw", "v_from_compressed", "v_reader_string", "v_skip_reserved", "v_chunk_read", "v_chunk_read_all", "v_parse_chunk_type", "v_celsdata_new", "v_parseinfo_new", "v_parseinfo_validate", "v_celsdata_validate", "v_rawcel_validate", "v_layersdata_validate", "v_tilesets_validate", "v_compute_parents", "v_from_vec", "k_check_chunk_bytes", "k_scale_6bit", "k_parse_chunk_type", "k_parse_pixel_format"] + LAYER_DEC + TAGS_DEC + SLICE_DEC + PAL_DEC + EXT_DEC
      + TS_DEC + CEL_DEC + UD_DEC + CP_DEC + READER + ["k_tilemap_bits", "k_tile_parse", "k_cels_table", "v_read_aseprite", "v_parse_frame", "v_ud_set_tag_user_data", "v_ud_add_user_data", "v_ud_add_cel", "v_cel_mut", "x_decoder_contracts", "x_total_load"],
      "Totality contracts on the real text (Verus): every decoder, the chunk framing, the header / frame loop, the dispatch, the validation stage and the parent computation return Ok or Err for EVERY input with no overflow, index error or reachable panic site; every Kani decoder harness also discharges the automatic no-panic / no-overflow / in-bounds checks for all contents of its payload size. Whole-load totality (zlib, stack depth, allocation under a 4 GiB address-space limit, hangs) is fault enumeration in an isolated child process.", level_note_extra="fault enumeration for the composition")
 prop("C05", "proof", ["v_frame_image_api", "v_cel_image_api", "v_tilemap_image_api", "v_tilesets_get", "v_file_tilemap", "v_from_vec", "v_parseinfo_validate", "v_celsdata_new", "v_parseinfo_new", "v_tilesets_validate", "v_celsdata_validate", "v_rawcel_validate", "v_imagecontent_validate", "v_layersdata_validate", "v_write_cel", "v_frame_image", "v_layer_image", "v_validate_indexed", "v_rawpixels_validate", "v_indexed_as_rgba", "v_dec_tilemap", "v_dec_tileset", "v_tileset_wf_preserved", "v_tileset_image", "v_tileset_tile_image", "v_tilesize_pixels_per_tile", "v_parse_raw_cel", "v_parse_compressed_cel", "v_take_bytes", "v_unzip", "v_output_size", "v_from_bytes", "v_from_raw", "v_from_compressed", "v_tiles_unzip", "v_write_raw_cel", "v_write_tilemap_cel", "v_tile_slice", "v_tilemap_tile", "v_tilemap_lookup", "v_tile_offsets", "v_is_visible", "v_pixels_per_tile", "k_validate_indexed", "k_indexed_as_rgba", "k_tileset_head_34", "k_tileset_head_44", "x_usable_after_load"],
@@ -451,7 +455,7 @@ prop("C10", "proof", UD_V + ["v_dec_userdata", "v_acc_cel_user_data", "v_acc_lay
      "The attachment rule is a Verus contract on the REAL code, extracted each run, for unbounded tables and chunk sequences: ParseInfo::add_user_data attaches a record to the entity named by the current context and changes nothing else (add_layer / add_cel / add_tags / add_slice / set_tag_user_data / CelsData::cel_mut likewise), and parse_frame - the chunk dispatch - updates that context per chunk kind exactly by the rule (fold over the chunk sequence; ignorable chunks and the new palette leave it untouched, tags only count in frame 0, a legacy palette selects the sprite). Assumed in that unit: the decoders' results (their own contracts are the dec_* units) and the chunk framing. The same rule is additionally executed for all admissible chunk sequences up to length 5 / 6 through the public API; the user-data chunk decoder is a Verus (unbounded) and Kani (fixed shapes) contract.")
 prop("C11", "proof", ["v_parse_frame", "v_dec_old04", "v_dec_old11", "v_dec_palette", "v_palette_color", "v_validate_indexed", "v_rawpixels_validate", "v_scale_6bit"] + PAL_DEC + ["k_validate_indexed", "x_decoder_contracts", "x_palette_precedence", "x_indexed_needs_palette"],
      "New and legacy (0x0004 / 0x0011) palette decoders are Verus contracts for every payload (accumulating skip, count 0 = 256, later packet overrides, 6-bit scaling 4c + c/16 with components >= 64 refused); parse_frame pins the precedence rule as a fold (a new-format chunk always replaces the palette, a legacy chunk only fills an empty one); validate_indexed_pixels / RawPixels::validate: an indexed sprite loads iff EVERY pixel index has a palette entry. 6-bit scaling is also a full-domain Kani contract; precedence and the load failure are executed on seeded files as well.")
-prop("C13", "exploration", READER + ["v_chunk_read", "v_chunk_read_all", "v_read_aseprite", "v_parse_frame", "v_read_bytes", "v_take_bytes", "v_unzip", "k_check_chunk_bytes", "v_check_chunk_bytes", "v_dec_layer", "v_dec_tags", "v_dec_cel", "x_truncation"],
+prop("C13", "exploration", READER + ["v_chunk_read", "v_chunk_read_all", "v_read_aseprite", "v_parse_frame", "v_read_bytes", "v_take_bytes", "v_unzip", "v_reader_string", "v_skip_reserved", "k_check_chunk_bytes", "v_check_chunk_bytes", "v_dec_layer", "v_dec_tags", "v_dec_cel", "x_truncation"],
      "Contracts (Verus, every length): Chunk::read is Ok iff the WHOLE declared chunk is present, read_all yields exactly `count` complete chunks, parse_frame is Ok only if the 16-byte frame header is present, read_aseprite is Ok only after exactly num_frames frames, each decoder is Ok iff every declared byte of its payload is present; reader primitives return an error value whenever fewer bytes remain (Kani, every position of a fixed-size cursor); read_bytes / take_bytes / unzip fail whenever fewer than the declared bytes arrive (Verus, real text over a trusted model of Read). The top-level statement compares two runs (file vs prefix) and is decided by executing every cut offset of generated and corpus files.")
 prop("C14", "exploration", ["k_error_mapping", "k_reader_prims_6", "k_reader_sequence", "k_reader_schedule_5", "k_reader_hard_error_4", "k_reader_schedule", "k_reader_hard_error", "v_read_bytes", "x_readers"],
      "Kani: AseReader's primitives over a scripted reader return the in-memory result for EVERY split of the stream into read() sizes and EVERY placement of transient Interrupted results (5- and 7-byte streams), and with a hard error anywhere they return the right value or that very error; error mapping (io::Error -> IoError, source()) is a Kani contract. read_bytes is a Verus contract over a trusted model of Read (Ok = exactly the next bytes; every Err is the I/O error, its own UnexpectedEof or the source's); std read_to_end itself (intractable for CBMC) and whole files are bounded-exec with scripted readers (short reads, Interrupted, BufReader, files) and a hard error of 6 kinds injected at byte offsets.")
